@@ -287,6 +287,67 @@ def validate_trace(scratch, trace, tag="pooltrace", par=16):
     return d
 
 
+# ------------------------------------------------------------------ adaptive random driver (traces judged by TLC)
+
+def C(min=1, max=2, wm=1, fb=False, uc=0, ums=0, rr=False):
+    return dict(min=min, max=max, wm=wm, fb=fb, uc=uc, ums=ums, rr=rr, nopool=False)
+
+
+# (name, cfg, profile)
+RANDOM_COMBOS = {
+    "aff":       (C(1, 3, 2), "affinity"),
+    "aff-wide":  (C(3, 3, 100), "affinity"),
+    "aff-fb":    (C(2, 3, 2, fb=True), "affinity"),
+    "aff-ref":   (C(2, 2, 3, uc=1, ums=2), "refresh"),
+    "ref":       (C(1, 2, 2, uc=2, ums=3), "refresh"),
+    "ref-fb":    (C(2, 3, 2, fb=True, uc=1, ums=2), "refresh"),
+    "load":      (C(3, 4, 100), "load"),
+    "load-grow": (C(1, 4, 2), "load"),
+    "load-ref":  (C(3, 3, 100, uc=1, ums=2), "load"),
+    "faults":    (C(2, 3, 1, fb=True, uc=1, ums=2), "faults"),
+    "faults-min": (C(3, 4, 2), "faults"),
+    "rr":        (C(3, 3, 100, rr=True), "rr"),
+    "rr-ref":    (C(2, 3, 2, rr=True, uc=1, ums=2, fb=True), "rr"),
+    "mixed":     (C(2, 3, 2, fb=True, uc=1, ums=2, rr=True), "mixed"),
+    "defaults":  (C(0, 0, 0), "mixed"),
+}
+PROP_COMBOS = {
+    "C01": ["aff", "aff-ref", "aff-fb", "aff-wide", "mixed"],
+    "C02": ["load", "load-ref", "load-grow", "aff-ref", "mixed"],
+    "C03": ["load-grow", "faults-min", "aff", "mixed"],
+    "C04": ["mixed", "faults", "ref", "load-ref"],
+    "C05": ["faults", "faults-min", "mixed", "rr-ref"],
+    "C06": ["faults-min", "faults", "rr", "mixed"],
+    "C07": ["ref", "aff-ref", "load-ref", "ref-fb", "rr-ref"],
+    "C08": ["aff-fb", "ref-fb", "faults", "mixed"],
+    "C09": ["rr", "rr-ref", "mixed"],
+    "C17": ["defaults", "mixed"],
+    "C20": ["ref", "faults", "mixed", "aff-ref"],
+}
+
+
+def random_jobs(pid, tier, seed):
+    njobs, steps = (120, 45) if tier == "quick" else (1500, 90)
+    jobs = []
+    for ci, name in enumerate(PROP_COMBOS[pid]):
+        cfg, prof = RANDOM_COMBOS[name]
+        for j in range(njobs):
+            jobs.append({"id": "rnd-%s-%d" % (name, j), "cfg": cfg, "seed": seed * 1000003 + ci * 10007 + j, "steps": steps, "profile": prof})
+    return jobs
+
+
+def run_random(scratch, binp, jobs, name="rnd"):
+    inp = scratch.path(name + "-jobs.ndjson")
+    outp = scratch.path(name + "-trace.ndjson")
+    with open(inp, "w") as f:
+        for j in jobs:
+            f.write(json.dumps(j) + "\n")
+    rc, out = vlib.run_test_binary(binp, "TestVerifPoolRandom", {"VERIF_IN": inp, "VERIF_OUT": outp}, timeout=3000)
+    if rc != 0 or "VERIF-POOLRAND" not in out:
+        raise Infra("random pool driver failed (rc=%s):\n%s" % (rc, out[-3000:]))
+    return inp, outp
+
+
 def load_seed_scripts():
     p = os.path.join(vlib.VERIF, "scripts", "pool_seed.ndjson")
     out = []
